@@ -96,8 +96,8 @@ impl Executor for BashScriptExecutor {
                     ExecutionTimeout::Total,
                     vec![Output {
                         exit_code: output.exit_code,
-                        stderr: remove_dividers_from_output(&output.stderr),
-                        stdout: remove_dividers_from_output(&output.stdout),
+                        stderr: remove_dividers_from_output(&output.stderr, &salt),
+                        stdout: remove_dividers_from_output(&output.stdout, &salt),
                     }],
                 ));
             }
@@ -237,14 +237,20 @@ fn compile_testcase(
 }
 
 /// Returns output stream that does not contain any line that starts with a divider prefix
-fn remove_dividers_from_output(output: &OutputStream) -> OutputStream {
+fn remove_dividers_from_output(output: &OutputStream, salt: &str) -> OutputStream {
+    // only what carries the salt of this execution is a divider, and it begins
+    // wherever the output in front of it ended - not necessarily on a new line
+    let own_divider = format!("{}{}::", DIVIDER_PREFIX, salt).into_bytes();
     let text: &[u8] = &output.to_bytes();
     let mut updated = vec![];
     for line in text.split_at_newline() {
-        if line.starts_with(DIVIDER_PREFIX_BYTES) {
-            continue;
+        match line
+            .windows(own_divider.len())
+            .position(|window| window == own_divider)
+        {
+            Some(position) => updated.push(&line[..position]),
+            None => updated.push(line),
         }
-        updated.push(line);
     }
     updated.concat().into()
 }
